@@ -4,13 +4,11 @@ import json, os
 HERE = os.path.dirname(os.path.dirname(os.path.abspath(__file__)))
 BASE = json.load(open("/root/.vp/BASELINE.json"))["cmd"] if os.path.exists("/root/.vp/BASELINE.json") else "cd /repo && /venv/bin/python -m pytest -q"
 
-# id -> (technique, level text, level_note, design_ref)
-CLAIMED = {
- "C17": ("Lean 4 theorems over tables regenerated from the code (decide over the full 11x11 matrix) + validate() model with correspondence",
-         "Proof: the strict and lenient compatibility tables are regenerated from /repo on every run and proved equal to the documented rules for all 121 pairs; the validate loop, strict-flag propagation and request/group conflict are modelled and proved (raise iff some declared, present, supported column is incompatible; order independent). Tie: exhaustive table differential, generated validate() calls, full matrix end to end through run_all. Partial: 'on every compute framework' holds only for Arrow-schema data (known finding on Pandas/PythonDict).",
-         "Lean kernel; axioms propext/Classical.choice/Quot.sound at most; extract.py table printer; pyarrow type naming; oracle = validator docstring tables.",
-         "DESIGN.md §6 C17"),
-}
+import glob
+CLAIMED = {}
+for f in sorted(glob.glob(os.path.join(HERE, "manifest.d", "C*.json"))):
+    d = json.load(open(f))
+    CLAIMED[os.path.basename(f)[:-5]] = (d["technique"], d["text"], d["level_note"], d.get("design_ref", "DESIGN.md §6"))
 REASON_NOT_YET = "check not built yet in this round (planned: Lean model + correspondence, see DESIGN.md §6)"
 ALL = [f"C{i:02d}" for i in range(1, 21)]
 
@@ -29,7 +27,7 @@ for pid, (tech, text, note, ref) in sorted(CLAIMED.items()):
     })
 m = {
  "version": 1,
- "setup_cmd": "cd lean && lake build MlodaVerif",
+ "setup_cmd": "/venv/bin/python harness/extract.py && cd lean && lake build",
  "hooks": {"guard": "MLODA_VERIF", "enable": "export MLODA_VERIF=1 (no hooks are compiled into /repo; all observation goes through public API and harness-side wrappers)",
            "baseline_off_cmd": BASE.replace(" --junitxml=<file>", ""), "source_commits": [], "add_only": True},
  "engines": [
